@@ -1,6 +1,9 @@
 (* SetCodecJudge.v — judgement of observed Set encode/decode behaviour (no proofs).
    Elements are indices into the harness' universe (T := Z).  The model is instantiated with
-   the "recorded listing" codec: a document is (is_null, listing).                          *)
+   the concrete sequence layer of SetCodecModel (documents = null | array of element
+   documents) over the identity element codec on indices: the harness maps every decoded member
+   back to its universe index (-1 when it is no element of the universe), so "each decoded member
+   equals the element that was encoded" is equality of index lists.                          *)
 From Coq Require Import ZArith List Bool.
 From GT Require Import Base.Verdict SetModel SetCodecModel.
 Import ListNotations.
@@ -15,33 +18,48 @@ Record codec_case := {
   cc_enc_null : bool;        (* the encoded document is the null scalar *)
   cc_enc_listing : list Z;   (* the encoded document decoded by the plain library into []T, as sorted indices *)
   cc_dec_err : bool;         (* decoding into the target returned an error *)
-  cc_result : list Z         (* members of the target afterwards, sorted indices *)
+  cc_result : list Z;        (* members of the target afterwards, sorted indices *)
+  (* the same document with its element documents re-ordered (another iteration order of the
+     source map): the order as source indices, decode error, members of a fresh copy of the
+     target afterwards *)
+  cc_perms : list (list Z * (bool * list Z))
 }.
 
 Definition zlist_eqb (a b : list Z) : bool := if list_eq_dec Z.eq_dec a b then true else false.
 Definition canon (univ l : list Z) : list Z := filter (fun u => memb Z.eqb u l) univ.
 
-Definition doc := (bool * list Z)%type.
-Definition enc_of (yaml : bool) (o : option (list Z)) : doc :=
-  match o with Some l => (false, l) | None => (negb yaml, []) end.
-Definition dec_of (d : doc) : option (list Z) := Some (snd d).
+Definition jdoc := adoc Z.
+Definition j_enc (yaml : bool) : option (list Z) -> jdoc := arr_enc (fun x : Z => x) (negb yaml).
+Definition j_dec : jdoc -> list Z -> option (list Z) := arr_dec 0%Z (fun (e : Z) (_ : Z) => Some e).
+Definition doc_null (d : jdoc) : bool := match d with ANull => true | AArr _ => false end.
+Definition doc_items (d : jdoc) : list Z := match d with ANull => [] | AArr es => es end.
 
 Definition codec_judge (c : codec_case) : nat :=
   let u := cc_univ c in
   let s := if cc_src_nil c then s_nil else s_make Z.eqb (cc_src c) in
   let t := match cc_tgt c with None => s_nil | Some l => s_make Z.eqb l end in
   let tl := match cc_tgt c with None => [] | Some l => l end in
+  let want := canon u (cc_src c ++ tl) in
   let spec_ok :=
     zlist_eqb (cc_enc_listing c) (canon u (cc_src c))          (* each member exactly once *)
     && (negb (cc_enc_null c) || match cc_src c with [] => true | _ => false end)
     && negb (cc_dec_err c)
-    && zlist_eqb (cc_result c) (canon u (cc_src c ++ tl)) in
-  let d := set_marshal (enc_of (cc_yaml c)) (elems s) in
+    && zlist_eqb (cc_result c) want
+    (* whatever order the members are listed in, decoding yields the same membership *)
+    && forallb (fun p => negb (fst (snd p)) && zlist_eqb (snd (snd p)) want) (cc_perms c) in
+  let d := set_marshal (j_enc (cc_yaml c)) (elems s) in
+  let model_of (d : jdoc) (err : bool) (res : list Z) : bool :=
+    match set_unmarshal Z.eqb j_dec t d with
+    | Some t' => negb err && zlist_eqb res (canon u (elems t'))
+    | None => err
+    end in
   let model_eq :=
-    Bool.eqb (cc_enc_null c) (fst d)
-    && zlist_eqb (cc_enc_listing c) (canon u (snd d))
-    && match set_unmarshal Z.eqb dec_of t d with
-       | Some t' => negb (cc_dec_err c) && zlist_eqb (cc_result c) (canon u (elems t'))
-       | None => cc_dec_err c
-       end in
+    Bool.eqb (cc_enc_null c) (doc_null d)
+    && zlist_eqb (cc_enc_listing c) (canon u (doc_items d))
+    && model_of d (cc_dec_err c) (cc_result c)
+    && forallb (fun p =>
+         (* the re-ordered document lists the same elements as the model's *)
+         Nat.eqb (length (fst p)) (length (doc_items d))
+         && zlist_eqb (canon u (fst p)) (canon u (doc_items d))
+         && model_of (AArr (fst p)) (fst (snd p)) (snd (snd p))) (cc_perms c) in
   verdict spec_ok model_eq.
